@@ -4,10 +4,27 @@
   comparing reads with `writeAt 0 ref (wpos·cpf) cells`; this file proves that this IS the decoded data region of the store
   after the write (C01's round trip: decode ∘ encode = id on lossless in-range values, for whatever conversion settings).
 -/
-import SfProofs.AbsBridgeSteps
+import SfProofs.AbsBridgeReadStep
 import SfProofs.Codec
 namespace Sf.AbsBridge
 open Sf
+
+/-! ## the data region -/
+
+theorem absRef_congr_region (h h' : H) (s s' : Store) (ty : Ty) (he : h'.enc = h.enc) (hc : h'.conv = h.conv)
+    (hD : dataRegion h' s' = dataRegion h s) : absRef h' s' ty = absRef h s ty := by
+  unfold absRef; rw [he, hc, hD]
+
+/-- a read/write handle whose abstract frames are the `bw`-groups of `X` has the data region `X` -/
+theorem dataRegion_of_frames (h' : H) (s' : Store) (inv' : RwInv h' s') (X : List Byte) (k : Nat)
+    (hX : X.length = k * h'.bw) (habs : (absOf h' s').frames = groups h'.bw X) : dataRegion h' s' = X := by
+  obtain ⟨R, W, F, hdr, D, v⟩ := inv'
+  have hbw := v.bw_pos
+  rw [v.abs] at habs
+  simp only at habs
+  rw [v.dataRegion, ← groups_join _ hbw F D v.dlen, habs, groups_join _ hbw k X hX]
+
+/-! ## lossless writes -/
 
 theorem encBuf_extract_to_end (ty : Ty) (l : List Int) (i : Nat) :
     (encBuf ty l).extract (i * Abs.cells ty) (encBuf ty l).size = encBuf ty (l.drop i) := by
